@@ -2972,4 +2972,55 @@ StylesheetExecutionContextDefault::FormatterToTextDOMString::~FormatterToTextDOM
 #endif
 
 
+
+
+#if defined(APACHE_XALAN_C_VERIF)
+void
+StylesheetExecutionContextDefault::verifReportSizes(std::vector<std::pair<const char*, unsigned long> >&     out) const
+{
+    m_xpathExecutionContextDefault.verifReportSizes(out);
+    out.push_back(std::make_pair("StylesheetExecutionContextDefault::m_xsltProcessor", m_xsltProcessor != 0 ? 1ul : 0ul));
+    out.push_back(std::make_pair("StylesheetExecutionContextDefault::m_rootDocument", m_rootDocument != 0 ? 1ul : 0ul));
+    out.push_back(std::make_pair("StylesheetExecutionContextDefault::m_elementRecursionStack", static_cast<unsigned long>(m_elementRecursionStack.size())));
+    out.push_back(std::make_pair("StylesheetExecutionContextDefault::m_stylesheetRoot", m_stylesheetRoot != 0 ? 1ul : 0ul));
+    out.push_back(std::make_pair("StylesheetExecutionContextDefault::m_formatterListeners", static_cast<unsigned long>(m_formatterListeners.size())));
+    out.push_back(std::make_pair("StylesheetExecutionContextDefault::m_printWriters", static_cast<unsigned long>(m_printWriters.size())));
+    out.push_back(std::make_pair("StylesheetExecutionContextDefault::m_outputStreams", static_cast<unsigned long>(m_outputStreams.size())));
+    m_variablesStack.verifReportSizes(out);
+    out.push_back(std::make_pair("StylesheetExecutionContextDefault::m_paramsVector", static_cast<unsigned long>(m_paramsVector.size())));
+    out.push_back(std::make_pair("StylesheetExecutionContextDefault::m_matchPatternCache", static_cast<unsigned long>(m_matchPatternCache.size())));
+    out.push_back(std::make_pair("StylesheetExecutionContextDefault::m_keyTables", static_cast<unsigned long>(m_keyTables.size())));
+    m_countersTable.verifReportSizes(out);
+    out.push_back(std::make_pair("StylesheetExecutionContextDefault::m_sourceTreeResultTreeFactory", m_sourceTreeResultTreeFactory.get() != 0 ? 1ul : 0ul));
+    out.push_back(std::make_pair("StylesheetExecutionContextDefault::m_mode", m_mode != 0 ? 1ul : 0ul));
+    out.push_back(std::make_pair("StylesheetExecutionContextDefault::m_currentTemplateStack", static_cast<unsigned long>(m_currentTemplateStack.size())));
+    out.push_back(std::make_pair("StylesheetExecutionContextDefault::m_xresultTreeFragAllocator", static_cast<unsigned long>(m_xresultTreeFragAllocator.getBlockCount())));
+    out.push_back(std::make_pair("StylesheetExecutionContextDefault::m_documentFragmentAllocator", static_cast<unsigned long>(m_documentFragmentAllocator.getBlockCount())));
+    out.push_back(std::make_pair("StylesheetExecutionContextDefault::m_documentAllocator", static_cast<unsigned long>(m_documentAllocator.getBlockCount())));
+    out.push_back(std::make_pair("StylesheetExecutionContextDefault::m_copyTextNodesOnlyStack", static_cast<unsigned long>(m_copyTextNodesOnlyStack.size())));
+    out.push_back(std::make_pair("StylesheetExecutionContextDefault::m_modeStack", static_cast<unsigned long>(m_modeStack.size())));
+    out.push_back(std::make_pair("StylesheetExecutionContextDefault::m_currentIndexStack", static_cast<unsigned long>(m_currentIndexStack.size())));
+#if !defined(XALAN_RECURSIVE_STYLESHEET_EXECUTION)
+    out.push_back(std::make_pair("StylesheetExecutionContextDefault::m_xobjectPtrStack", static_cast<unsigned long>(m_xobjectPtrStack.size())));
+    out.push_back(std::make_pair("StylesheetExecutionContextDefault::m_mutableNodeRefListStack", static_cast<unsigned long>(m_mutableNodeRefListStack.verifDepth())));
+    out.push_back(std::make_pair("StylesheetExecutionContextDefault::m_nodesToTransformStack", static_cast<unsigned long>(m_nodesToTransformStack.size())));
+    out.push_back(std::make_pair("StylesheetExecutionContextDefault::m_processCurrentAttributeStack", static_cast<unsigned long>(m_processCurrentAttributeStack.size())));
+    out.push_back(std::make_pair("StylesheetExecutionContextDefault::m_executeIfStack", static_cast<unsigned long>(m_executeIfStack.size())));
+    out.push_back(std::make_pair("StylesheetExecutionContextDefault::m_stringStack", static_cast<unsigned long>(m_stringStack.verifDepth())));
+    out.push_back(std::make_pair("StylesheetExecutionContextDefault::m_formatterToTextStack", static_cast<unsigned long>(m_formatterToTextStack.verifDepth())));
+    out.push_back(std::make_pair("StylesheetExecutionContextDefault::m_skipElementAttributesStack", static_cast<unsigned long>(m_skipElementAttributesStack.size())));
+    out.push_back(std::make_pair("StylesheetExecutionContextDefault::m_formatterToSourceTreeStack", static_cast<unsigned long>(m_formatterToSourceTreeStack.verifDepth())));
+    out.push_back(std::make_pair("StylesheetExecutionContextDefault::m_paramsVectorStack", static_cast<unsigned long>(m_paramsVectorStack.size())));
+    out.push_back(std::make_pair("StylesheetExecutionContextDefault::m_elementInvokerStack", static_cast<unsigned long>(m_elementInvokerStack.size())));
+    out.push_back(std::make_pair("StylesheetExecutionContextDefault::m_useAttributeSetIndexesStack", static_cast<unsigned long>(m_useAttributeSetIndexesStack.size())));
+#endif
+    out.push_back(std::make_pair("StylesheetExecutionContextDefault::m_indentAmount", static_cast<unsigned long>(m_indentAmount + 1)));
+    out.push_back(std::make_pair("StylesheetExecutionContextDefault::m_usePerInstanceDocumentFactory", static_cast<unsigned long>(m_usePerInstanceDocumentFactory ? 1 : 0)));
+    out.push_back(std::make_pair("StylesheetExecutionContextDefault::m_escapeURLs", static_cast<unsigned long>(m_escapeURLs)));
+    out.push_back(std::make_pair("StylesheetExecutionContextDefault::m_omitMETATag", static_cast<unsigned long>(m_omitMETATag)));
+}
+#endif
+
+
+
 }
